@@ -136,6 +136,57 @@ TABLE.update({
         note="Trusts vf/model.py make_path (TDMS quoting rule); surrogates excluded."),
 })
 
+TABLE.update({
+    'C11': dict(
+        technique="property-based testing: Hypothesis DAQmx layouts with random buffer bytes against a byte-addressing model "
+                  "(buffer, row stride, offset, type, byte order, bit); exhaustive lazy windows of small channels and every "
+                  "cut of the final chunk (fault injection)",
+        text="Thousands of generated DAQmx segments (1-3 buffers of differing widths/lengths, 1-4 channels, 1-3 scalers, "
+             "format-changing and digital-line, raw and typed channels, both byte orders); eager, lazy, windowed and streamed "
+             "reads are compared with values computed from the raw bytes; truncated final chunks must yield only complete rows.",
+        note="Trusts vf/encode.py's DAQmx index layout; multi-length channels, timestamp scalers and multi-byte digital "
+             "lines are outside the generator."),
+    'C12': dict(
+        technique="exhaustive enumeration of all 10^6 sub-second microsecond values (round trip) + boundary-biased Hypothesis "
+                  "(seconds, fractions) pairs against exact rational arithmetic (fractions.Fraction); round trip through "
+                  "writer, reader and defragment; time_track against its defining formula",
+        text="Complete over the microsecond residues (every quick run), sampled over seconds and over 64-bit fractions with "
+             "generators concentrated on unit boundaries; conversions must be within one unit, monotone and identical for "
+             "scalar and array code paths.",
+        note="1e-6 unit slack on 'within one unit'; 'ps' and as_datetime() are outside the statement."),
+    'C13': dict(
+        technique="property-based testing: Hypothesis scale graphs written into files by the independent encoder, evaluated by "
+                  "an independent interpreter (model oracle); metamorphic window/elementwise and lazy/eager relations; raw "
+                  "bytes compared before and after",
+        text="Thousands of generated dataflow graphs (wiring, coefficients, raw type, property placement and precedence, "
+             "NI_Number_Of_Scales present/absent, 'scaled' status) are read lazily and eagerly; values must match the defining "
+             "formulas within a conditioning-aware bound, windows must equal slices bit for bit, raw data must never change.",
+        note="Formulas in float64; Table and Subtract conventions as documented by the module; integer-only Add/Subtract not "
+             "generated."),
+    'C14': dict(
+        technique="exhaustive enumeration of the raw type x scaling x length x mode x read-operation matrix + Hypothesis scale "
+                  "graphs / files / DAQmx; oracle = result.dtype == channel.dtype and len",
+        text="The finite matrix (18 type cases x up to 27 scalings x 3 lengths, ~2*10^5 individual reads) is enumerated "
+             "completely on every run, random graphs incl. no-op scales and generated files add breadth.",
+        note="Equality up to byte order; results without a dtype (Python str scalars, lists of str from chunk reads) are "
+             "not judged; raw-timestamp mode only requires TimestampArray for non-empty results."),
+    'C17': dict(
+        technique="property-based testing (inverse round trip): independently written forward sensor laws generate the voltage, "
+                  "the scaling must return the generating temperature / strain within 1e-6 relative",
+        text="Tens of thousands of physical parameter sets over all RTD wire configurations (both polynomial branches, T -> 0), "
+             "thermistor excitation circuits and the seven strain bridges with lead, gain and initial-voltage corrections, "
+             "directly on the classes and through generated files; polynomial / table against Horner / clamped interpolation.",
+        note="RTD coefficients within 5% of IEC 60751; voltage-excited 2-wire thermistor only with zero lead resistance."),
+    'C18': dict(
+        technique="dense-grid and boundary-neighbour enumeration + Hypothesis points against an independent transcription of the "
+                  "NIST ITS-90 tables (differential oracle) and NIST's inverse error bounds",
+        text="Per type and direction a 2*10^4 (quick) / 2*10^5 (thorough) point grid in one array call, every piece boundary "
+             "with its +-2 ulp neighbours as scalars and arrays, and ThermocoupleScaling for all eight NI type codes in both "
+             "directions with float32/float64 data, directly and through files.",
+        note="Trusts the frozen copy of thermocouples_reference's NIST tables; inverse coefficients judged only through the "
+             "NIST error bound."),
+})
+
 PENDING_REASON = "check not built yet in this session (planned in DESIGN.md section 4); not claimed until it runs"
 
 
